@@ -356,6 +356,40 @@ def min_len(p):
     return n
 
 
+def max_len(p):
+    """Maximum length of a match of p (None = unbounded / unknown)."""
+    n = 0
+    for op, av in p:
+        if op in (sre_c.LITERAL, sre_c.NOT_LITERAL, sre_c.ANY, sre_c.IN,
+                  sre_c.CATEGORY):
+            n += 1
+        elif op is sre_c.BRANCH:
+            ms = [max_len(alt) for alt in av[1]]
+            if any(m is None for m in ms):
+                return None
+            n += max(ms)
+        elif op in (sre_c.MAX_REPEAT, sre_c.MIN_REPEAT) or \
+                str(op) == 'POSSESSIVE_REPEAT':
+            inner = max_len(av[2])
+            if inner is None or av[1] is sre_c.MAXREPEAT or av[1] > 1000:
+                if inner == 0:
+                    continue
+                return None
+            n += av[1] * inner
+        elif op is sre_c.SUBPATTERN:
+            inner = max_len(av[3])
+            if inner is None:
+                return None
+            n += inner
+        elif op is sre_c.AT:
+            continue
+        elif str(op) in ('ASSERT', 'ASSERT_NOT'):
+            continue
+        else:
+            return None
+    return n
+
+
 def ambiguous_repeats(p):
     """[text] of unbounded repeats whose body is (or has an alternative that
     is) itself nothing but an unbounded repeat - the `(x+)*` / `(x+|y)*`
